@@ -156,6 +156,7 @@ class Slots:
                 self.terminals.append(n)
         # inherent terminals (find_with_index & co) and constructors/conversions
         self.inherent_terminals = []
+        self.inherent_helpers = []
         self.inherent_transformations = []
         self.constructors = []
         self.sources = []     # par()/into_par()/cloned()/copied()
@@ -172,7 +173,11 @@ class Slots:
                 elif m.startswith('destruct') or m in ('iter_len',):
                     pass
                 elif not self.returns_par(b):
-                    self.inherent_terminals.append(b.name)
+                    # what a user can call is a terminal; private / crate-visible helpers (`destruct`, `compose`, `into_seq`) are plumbing
+                    if b.d.get('vis_pub'):
+                        self.inherent_terminals.append(b.name)
+                    else:
+                        self.inherent_helpers.append(b.name)
                 elif b.arg_locals() and b.local_name(b.arg_locals()[0]) == 'self':
                     # an inherent method that turns one computation into another: a transformation like those of the trait
                     self.transformations.append(b.name)
